@@ -57,11 +57,33 @@ def _fix_dtype(dt):
     return dt
 
 
+class FArr(_np.ndarray):
+    """Object array standing for a float64 array: assigning a sequence to a
+    scalar slot raises like it does for a real float array (NumPy >= 2.5)."""
+
+    def __setitem__(self, key, value):
+        if (isinstance(value, _np.ndarray) and value.ndim > 0) or isinstance(value, (list, tuple)):
+            try:
+                tgt = _np.ndarray.__getitem__(self, key)
+            except Exception:          # noqa: BLE001
+                tgt = None
+            if tgt is not None and not isinstance(tgt, _np.ndarray):
+                raise ValueError('setting an array element with a sequence.')
+        _np.ndarray.__setitem__(self, key, value)
+
+    def astype(self, dtype, *a, **k):
+        dtype = _fix_dtype(dtype)
+        base = _np.asarray(self).view(_np.ndarray)
+        if dtype is not None and not _is_float_dtype(dtype):
+            return _from_object(base, dtype, True)
+        return base.copy().view(FArr)
+
+
 def sym_full(shape, c):
     A = _np.empty(shape, dtype=object)
     s = Sym.const(c)
     A.fill(s)
-    return A
+    return A.view(FArr)
 
 
 def to_sym_array(a):
@@ -238,6 +260,24 @@ def _copy(a, *args, **kw):
     return _np.array(a, copy=True) if not isinstance(a, _np.ndarray) else a.copy()
 
 
+def _unique(ar, return_index=False, return_inverse=False, return_counts=False, axis=None, **kw):
+    if isinstance(ar, _np.ndarray) and ar.dtype == object:
+        vals = []
+        ok = True
+        for x in ar.reshape(-1):
+            c = x.const_value() if isinstance(x, Sym) else x
+            if c is None:
+                ok = False
+                break
+            vals.append(c)
+        if not ok:
+            raise engine.Unmodelled('unique of symbolic values')
+        isint = all(float(v) == int(v) for v in vals)
+        nat = _np.array([int(v) if isint else float(v) for v in vals]).reshape(ar.shape)
+        return _np.unique(nat, return_index, return_inverse, return_counts, axis=axis, **kw)
+    return _np.unique(ar, return_index, return_inverse, return_counts, axis=axis, **kw)
+
+
 def _linspace(start, stop, num=50, endpoint=True, **kw):
     num = int(num)
     out = _np.empty(num, dtype=object)
@@ -332,7 +372,12 @@ def _maximum(a, b, **kw):
     for i, (x, y) in enumerate(zip(a2.reshape(-1), b2.reshape(-1))):
         x = Sym.lift(x)
         y = Sym.lift(y)
-        # maximum(p, 0)-style: decide by fork-free atom
+        # maximum(p, 0)-style: if the path decides the order use it, else a fork-free atom
+        if not x.is_const() or not y.is_const():
+            v1, _ = ctx.check(x < y) if not isinstance(x < y, bool) else (('unsat', None) if not (x < y) else ('sat', None))
+            if v1 == 'unsat':
+                fo[i] = x
+                continue
         fo[i] = ctx.max_([x, y])
     return out if out.ndim else out.item()
 
@@ -431,7 +476,7 @@ class NPProxy:
             'zeros': _zeros, 'ones': _ones, 'empty': _empty, 'full': _full,
             'eye': _eye, 'identity': _identity, 'array': _array,
             'asarray': _asarray, 'asanyarray': _asanyarray, 'copy': _copy,
-            'linspace': _linspace, 'sqrt': _sqrt, 'abs': _abs, 'absolute': _abs,
+            'linspace': _linspace, 'unique': _unique, 'sqrt': _sqrt, 'abs': _abs, 'absolute': _abs,
             'isinf': _isinf, 'isnan': _isnan, 'isfinite': _isfinite,
             'max': _reduce_atom('max'), 'min': _reduce_atom('min'),
             'amax': _reduce_atom('max'), 'amin': _reduce_atom('min'),
